@@ -338,6 +338,36 @@ fn enrich(rng: &mut Rng, rec: &mut WorldRecords) {
                     .collect();
             }
         }
+        // a user row that re-declares a system word (same surface, part of speech and reading) and another row that
+        // names it inline: references are resolved against the lexicon being compiled first, then the system dictionary
+        if rng.chance(1, 4) && !rec.system.entries.is_empty() {
+            let t = rec.system.entries[rng.below(rec.system.entries.len())].clone();
+            let clash = u.entries.iter().any(|e| e.surface == t.surface && e.pos == t.pos && e.reading == t.reading);
+            // (an inline reference is itself comma separated: only plain surfaces / readings can be named that way)
+            let plain = |x: &str| x.chars().all(|c| !c.is_ascii() || c.is_ascii_alphanumeric());
+            if !clash && t.left >= 0 && plain(&t.surface) && plain(&t.reading) && !t.escape {
+                let mut dup = t.clone();
+                dup.headword = format!("{}利", t.surface);
+                dup.norm = dup.surface.clone();
+                dup.dic_form = None;
+                dup.split_a.clear();
+                dup.split_b.clear();
+                dup.word_structure.clear();
+                dup.split_type = "A".into();
+                dup.escape = false;
+                u.entries.push(dup);
+                let di = u.entries.len() - 1;
+                let mut w = u.entries[di].clone();
+                w.surface = format!("再{}", rng.below(1000));
+                w.headword = w.surface.clone();
+                w.reading = w.surface.clone();
+                w.norm = w.surface.clone();
+                w.split_type = "C".into();
+                w.split_a = vec![WordRef { dic: 1, index: di, style: RefStyle::Inline }];
+                w.split_b = vec![WordRef { dic: 1, index: di, style: RefStyle::Inline }];
+                u.entries.push(w);
+            }
+        }
         let un = u.entries.len();
         for i in 0..un {
             if rng.chance(1, 6) {
